@@ -4,7 +4,7 @@ package main
 // (lines are handed over through Options.Input, so the byte-level reader is not involved;
 // area "reader" and the piped process driver cover that).
 //
-//   filter run <scheme> <tiebreak|-> <exact> <algo> <ext> <case> <literal> <sort> <tac> <nth|-> <withnth|-> <delim> <tail> <hdr> <query> <lines>
+//   filter run <argv seed> <scheme> <tiebreak|-> <exact> <algo> <ext> <case> <literal> <sort> <tac> <nth|-> <withnth|-> <delim> <tail> <hdr> <query> <lines>
 //        => <exit code> <printed records>
 //
 //   case: 0 smart (default), 1 -i, 2 +i ; algo: v1|v2 ; delim: awk | d:<bytes>
@@ -18,50 +18,109 @@ import (
 	"github.com/junegunn/fzf/src/algo"
 )
 
-func filterArgs(a []string) []string {
-	args := []string{"--scheme=" + a[0]}
+// filterArgs builds the argument vector for the option set of a case. The options are emitted in
+// a seeded random order, preceded by contradicting options that the later ones must override
+// (later occurrences win, order among independent options is irrelevant).
+func filterArgs(a []string, seed int) []string {
+	final := []string{"--scheme=" + a[0]}
+	noise := []string{}
+	pick := func(r *rand.Rand, xs ...string) string { return xs[r.Intn(len(xs))] }
+	r := rand.New(rand.NewSource(int64(seed)))
 	if a[1] != "-" {
-		args = append(args, "--tiebreak="+string(decBytes(a[1])))
+		final = append(final, "--tiebreak="+string(decBytes(a[1])))
 	}
 	if a[2] == "1" {
-		args = append(args, "--exact")
+		final = append(final, pick(r, "--exact", "-e"))
+		noise = append(noise, pick(r, "+e", "--no-exact"))
+	} else if r.Intn(3) == 0 {
+		final = append(final, pick(r, "+e", "--no-exact"))
+		noise = append(noise, "-e")
 	}
-	args = append(args, "--algo="+a[3])
+	final = append(final, "--algo="+a[3])
 	if a[4] == "0" {
-		args = append(args, "--no-extended")
+		final = append(final, pick(r, "--no-extended", "+x"))
+		noise = append(noise, pick(r, "-x", "--extended"))
+	} else if r.Intn(3) == 0 {
+		final = append(final, pick(r, "-x", "--extended"))
+		noise = append(noise, "+x")
 	}
 	switch a[5] {
+	case "0":
+		if r.Intn(3) == 0 {
+			final = append(final, "--smart-case")
+			noise = append(noise, pick(r, "-i", "+i"))
+		}
 	case "1":
-		args = append(args, "-i")
+		final = append(final, pick(r, "-i", "--ignore-case"))
+		noise = append(noise, "+i")
 	case "2":
-		args = append(args, "+i")
+		final = append(final, pick(r, "+i", "--no-ignore-case"))
+		noise = append(noise, "-i")
 	}
 	if a[6] == "1" {
-		args = append(args, "--literal")
+		final = append(final, "--literal")
+		noise = append(noise, "--no-literal")
+	} else if r.Intn(3) == 0 {
+		final = append(final, "--no-literal")
+		noise = append(noise, "--literal")
 	}
 	if a[7] == "0" {
-		args = append(args, "--no-sort")
+		final = append(final, pick(r, "--no-sort", "+s"))
+	} else if r.Intn(3) == 0 {
+		noise = append(noise, "+s")
+		final = append(final, "--sort=1000")
 	}
 	if a[8] == "1" {
-		args = append(args, "--tac")
+		final = append(final, "--tac")
+		noise = append(noise, "--no-tac")
+	} else if r.Intn(3) == 0 {
+		final = append(final, "--no-tac")
+		noise = append(noise, "--tac")
 	}
 	if a[9] != "-" {
-		args = append(args, "--nth="+string(decBytes(a[9])))
+		final = append(final, "--nth="+string(decBytes(a[9])))
 	}
 	if a[10] != "-" {
-		args = append(args, "--with-nth="+string(decBytes(a[10])))
+		final = append(final, "--with-nth="+string(decBytes(a[10])))
 	}
 	if a[11] != "awk" {
-		args = append(args, "--delimiter="+string(decBytes(a[11][2:])))
+		final = append(final, "--delimiter="+string(decBytes(a[11][2:])))
 	}
 	if a[12] != "0" {
-		args = append(args, "--tail="+a[12])
+		final = append(final, "--tail="+a[12])
+		noise = append(noise, "--tail=1")
+	} else if r.Intn(4) == 0 {
+		final = append(final, "--no-tail")
+		noise = append(noise, "--tail=2")
 	}
 	if a[13] != "0" {
-		args = append(args, "--header-lines="+a[13])
+		final = append(final, "--header-lines="+a[13])
 	}
-	args = append(args, "--filter="+string(decRunes(a[14])))
-	return args
+	final = append(final, "--filter="+string(decRunes(a[14])))
+	if seed == 0 {
+		return final
+	}
+	r.Shuffle(len(noise), func(i, j int) { noise[i], noise[j] = noise[j], noise[i] })
+	r.Shuffle(len(final), func(i, j int) { final[i], final[j] = final[j], final[i] })
+	// --scheme resets the criteria, so an explicit --tiebreak has to follow it
+	if a[1] != "-" {
+		si, ti := -1, -1
+		for k, x := range final {
+			if strings.HasPrefix(x, "--scheme=") {
+				si = k
+			}
+			if strings.HasPrefix(x, "--tiebreak=") {
+				ti = k
+			}
+		}
+		if ti < si {
+			final[si], final[ti] = final[ti], final[si]
+		}
+	}
+	if r.Intn(2) == 0 {
+		noise = nil
+	}
+	return append(noise, final...)
 }
 
 func filterEval(op string, a []string) string {
@@ -70,11 +129,11 @@ func filterEval(op string, a []string) string {
 	}
 	curScheme = "" // Run re-initialises the algo package
 	algo.VerifReset()
-	opts, err := fzf.ParseOptions(false, filterArgs(a))
+	opts, err := fzf.ParseOptions(false, filterArgs(a[1:], atoi(a[0])))
 	if err != nil {
 		return "2 reject"
 	}
-	lines := decStrList(a[15])
+	lines := decStrList(a[16])
 	in := make(chan string, len(lines)+1)
 	for _, l := range lines {
 		in <- string(l)
@@ -152,7 +211,7 @@ func filterGen(r *rand.Rand, count int, emit func(op string, args ...string)) {
 		if r.Intn(4) == 0 {
 			algo = "v1"
 		}
-		emit("run", schemes[r.Intn(3)], tie, itoa(b2i(!fuzzy)), algo, itoa(b2i(ext)), itoa(r.Intn(3)), itoa(b2i(r.Intn(4) == 0)),
+		emit("run", itoa(r.Intn(100000)), schemes[r.Intn(3)], tie, itoa(b2i(!fuzzy)), algo, itoa(b2i(ext)), itoa(r.Intn(3)), itoa(b2i(r.Intn(4) == 0)),
 			itoa(b2i(r.Intn(4) > 0)), itoa(b2i(r.Intn(4) == 0)), nth, withnth, delim, tail, hdr, encRunes([]rune(query)), encStrList(ls))
 		_ = strings.Join
 	}
